@@ -549,6 +549,14 @@ class Interp:
             return models.add_rd(self, b, a)
         if isinstance(a, DT) and isinstance(b, DT) and op == "Sub":
             return models.dt_sub(self, a, b)
+        if isinstance(a, DT) and isinstance(b, RD) and op == "Sub":
+            # datetime - relativedelta = datetime + (-relativedelta): relative parts negated, absolute kept
+            n = RD()
+            for f in RD.REL:
+                setattr(n, f, -getattr(b, f))
+            for f in RD.ABS:
+                setattr(n, f, getattr(b, f))
+            return models.add_rd(self, a, n)
         if isinstance(a, (DT, RD, TD)) or isinstance(b, (DT, RD, TD)):
             raise Unsupported("datetime arithmetic %s" % op)
         # strings
